@@ -36,7 +36,17 @@ func (d *DeterministicSampler) Start() error {
 	// Get the actual upper bound - the largest possible value divided by
 	// the sample rate. In the case where the sample rate is 1, this should
 	// sample every value.
-	d.upperBound = math.MaxUint32 / uint32(d.sampleRate)
+	// A rate of 1 or less keeps everything (GetSampleRate never consults the bound); a rate
+	// that does not fit in 32 bits keeps (practically) nothing. Neither may reach the division:
+	// uint32(rate) is 0 for 0 and for every multiple of 2^32.
+	switch {
+	case d.sampleRate <= 1:
+		d.upperBound = math.MaxUint32
+	case int64(d.sampleRate) > math.MaxUint32:
+		d.upperBound = 0
+	default:
+		d.upperBound = math.MaxUint32 / uint32(d.sampleRate)
+	}
 
 	return nil
 }
